@@ -22,7 +22,7 @@ EXPLANATION = ('insertion order of the dict-building writer vs positional indexi
 LEVEL_TEXT = ('decides only: writer element order = reader positions for dobs and pobs; reader(writer(sample)) = sample algebraically; row layout vs stride; the membership-by-value sentinel '
               '(reported as known finding); every documented separator mode dispatches to its own branch; sample/value/cov/grad formats have 17 significant digits; name mangling and '
               'transports are paired. Equality of a subsequent error analysis is numerical and not decided.')
-TECHNIQUE = 'writer/reader layout table agreement, sympy algebra, control-dependence rule, symbolic evaluation of dispatch chains, format-string parsing'
+TECHNIQUE = 'writer/reader layout table agreement, sympy algebra, control-dependence and path-condition rules (dominating guards / preceding exits), symbolic evaluation of dispatch chains, format-string parsing'
 
 
 def key_order(mod, func, dname):
